@@ -1,7 +1,7 @@
 (* Non-vacuity examples for C16: concrete states meeting the theorems' hypotheses. *)
 From Coq Require Import ZArith QArith List Permutation String.
 From PAFCommon Require Import PyFloat PyNum Lists.
-From PAFC16 Require Import Gen Model Proofs.
+From PAFC16 Require Import Gen Lib Model Proofs Proofs2.
 Import ListNotations.
 
 Example grid_2_3_has_9_cells : List.length (grid_lists_Q 2 3) = 9%nat.
@@ -20,3 +20,43 @@ Proof. unfold numbered; simpl. apply (Permutation_app_comm [(2%Z, 30%Z)] [(0%Z, 
 
 Example tiling_hypotheses_hold : (1 <= 4)%Z /\ (1 # 2) < 3.
 Proof. split; [discriminate | reflexivity]. Qed.
+
+(* --- non-vacuity of the theorems added for "which entry belongs to which cell" --- *)
+Example digits_of_job_5_in_2x3 : digits 3 2 5 = [1%nat; 2%nat] /\ mdigits [2%nat; 3%nat; 2%nat] 7 = [1%nat; 0%nat; 1%nat].
+Proof. vm_compute. split; reflexivity. Qed.
+
+Example kth_is_digits_hypotheses : (1 <= 3)%Z /\ (5 < Z.to_nat 3 ^ 2)%nat.
+Proof. split; [discriminate|vm_compute; repeat constructor]. Qed.
+
+Example job_5_of_3x3_is_cell_1_2 :
+  map (fun p => (Qred (fst p), Qred (snd p))) (nth 5 (cells_Q 3 [(0, 3); (10, 13)]) []) = [(1, 2); (12, 13)].
+Proof. vm_compute. reflexivity. Qed.
+
+Example sens_cell_2_of_4 : Qred (fst (sens_cell1_Q 1 4 2)) = 1 # 2 /\ Qred (snd (sens_cell1_Q 1 4 2)) = 3 # 4.
+Proof. vm_compute. split; reflexivity. Qed.
+
+(* limit_scale 2 widens the cell by half a step on each side; limit_scale 4 on 2 steps is clamped to [0, 1] *)
+Example sens_cell_scaled : Qred (fst (sens_cell1_Q 2 4 2)) = 3 # 8 /\ Qred (snd (sens_cell1_Q 2 4 2)) = 7 # 8
+  /\ Qred (fst (sens_cell1_Q 4 2 0)) = 0 /\ Qred (snd (sens_cell1_Q 4 2 0)) = 1.
+Proof. vm_compute. repeat split; reflexivity. Qed.
+
+Example sens_collect_shuffled :
+  map snd (sens_collect [(2%Z, "c"%string); (0%Z, "a"%string); (1%Z, "b"%string)]) = ["a"%string; "b"%string; "c"%string].
+Proof. vm_compute. reflexivity. Qed.
+
+(* re-delivery: job 1 delivered twice, the later token is reported; the hypothesis of C16_kth_latest_wins holds *)
+Example builder_redelivery :
+  rb_run 2 ([(1%Z, 10%Z)] ++ (1%Z, 20%Z) :: [(0%Z, 5%Z)]) = [Some 5%Z; Some 20%Z] /\ ~ In 1%Z (map fst [(0%Z, 5%Z)]).
+Proof. split; [vm_compute; reflexivity|simpl; intros [H|[]]; discriminate]. Qed.
+
+(* C16_kth_partial's NoDup guard is needed as stated for its first conjunct: with a re-delivery the EARLIER
+   result of job 1 is in the arrivals but is not the one reported *)
+Example kth_partial_without_nodup_refuted :
+  exists (arrivals : list (Z * Z)) (r : Z), In (1%Z, r) arrivals /\ nth 1 (rb_run 2 arrivals) None <> Some r.
+Proof. exists [(1%Z, 10%Z); (1%Z, 20%Z)], 10%Z. split; [left; reflexivity|vm_compute; discriminate]. Qed.
+
+Example results_paths_example : rb_results 3 [(2%Z, 7%Z); (0%Z, 9%Z)] = [Some (9%Z, 0%Z); None; Some (7%Z, 2%Z)].
+Proof. vm_compute. reflexivity. Qed.
+
+Example progress_example : rb_progress 3 [] [(2%Z, tt); (0%Z, tt)] = [[false; false; true]; [true; false; true]].
+Proof. vm_compute. reflexivity. Qed.
